@@ -20,7 +20,7 @@ LEVEL_NOTE = ("Trusted: Coq kernel + vm_compute, harness spies (monkeypatching f
               "argparse, float() and json are oracles. hamsim hands two polynomials to the phase finder; the phases it returns are "
               "those of the last call (sine), which is what the statement's 'the phases the library produced' is checked against.")
 RULE = ("commands poly2angles, hamsim, invert, angles, poly, fpsearch, gibbs, efilter, relu, poly_sign, poly_thresh, poly_phase, poly_rect, "
-        "invert_rect, poly_linear_amp and unknown names; --return-angles and --output-json; comma and bracket list syntaxes; Wx / Wz; "
+        "invert_rect, poly_linear_amp and unknown names; poly over every --polyname (invert with non-integral kappa, efilter, relu, softplus, ...) and angles over every --seqname, fpsearch with 1..3 values (explicit gamma); --return-angles and --output-json; comma and bracket list syntaxes; Wx / Wz; "
         "tolerances 1e-3..1e-6; several numpy seeds; distinct by JSON; non-trivial = always")
 TRUSTED = ["Coq 8.16.1 kernel incl. vm_compute", "extraction + driver.ml (C01 checker)", "harness (impl_handlers6.py spies, stubs/pkg_resources.py)",
            "numpy/scipy/argparse/json as executors"]
@@ -36,6 +36,13 @@ TABLE = {"hamsim": (["PolyCosineTX", "PolySineTX"], "AGen CCosSin"), "invert": (
 SEQARGS = {"hamsim": [3.0, 0.1], "invert": [3.0, 0.3], "gibbs": [8, 2.0], "efilter": [8, 0.3], "relu": [8, 0.3], "poly_sign": [7, 2.0],
            "poly_thresh": [8, 2.0], "poly_phase": [8, 2.0], "poly_rect": [8, 2.0, 3.0], "invert_rect": [6, 2.0, 2.0, 0.3],
            "poly_linear_amp": [7, 0.25], "fpsearch": [5, 0.5]}
+# the generic commands: --polyname / --seqname -> (class, argument tuples); kappa of 'invert' is a real number, fpsearch takes an optional gamma
+POLYNAMES = {"invert": ("PolyOneOverX", [[2.5, 0.3], [3, 0.3]]), "poly_sign": ("PolySign", [[7, 2.0], [9, 3.5]]),
+             "poly_thresh": ("PolyThreshold", [[8, 2.0]]), "gibbs": ("PolyGibbs", [[8, 2.0], [10, 3.5]]),
+             "efilter": ("PolyEigenstateFiltering", [[8, 0.2, 0.9], [10.0, 0.3]]), "relu": ("PolyRelu", [[8], [8, 0.3]]),
+             "softplus": ("PolySoftPlus", [[8, 0.3], [8, 0.3, 1.5]])}
+SEQNAMES = {"fpsearch": ("FPSearch", [[5, 0.5], [6, 0.5, 0.3], [4]]), "erf_step": ("erf_step", [[7], [23]])}
+FPS_ARGS = [[5, 0.5], [6, 0.5, 0.3], [4], [7, 0.25, 0.6]]
 UNKNOWN = ["polytoangles", "Invert", "hamsim2", "", "phases"]
 
 
@@ -93,12 +100,37 @@ def run(ctx):
                 elif cmd == "angles":
                     al += ["--seqname", "fpsearch", "--seqargs=" + fmt_list([5, 0.5], bracket, style)]
                     exp_args = [5, 0.5]
+                elif cmd == "fpsearch":
+                    exp_args = FPS_ARGS[rep % len(FPS_ARGS)]
+                    al += ["--seqargs=" + fmt_list(exp_args, bracket, style)]
                 else:
                     al += ["--seqargs=" + fmt_list(SEQARGS[cmd], bracket, style)]
                     exp_args = SEQARGS[cmd]
                 al.append(cmd)
                 cases.append({"fn": "cli", "arglist": al, "cmd": cmd, "mode": mode, "bracket": bracket, "so": so, "tol": tol, "exp_args": exp_args,
                               "npseed": rng.randrange(2 ** 31), "timeout": 600})
+        # the generic commands over every registered name and several argument tuples
+        for name, (cls, tuples) in POLYNAMES.items():
+            for k, t in enumerate(tuples if not quick else tuples[:1] if name not in ("invert",) else tuples):
+                mode = rng.choice(["--return-angles", "--output-json"])
+                bracket = rng.random() < 0.5
+                tol = rng.choice([1e-3, 1e-4])
+                cases.append({"fn": "cli", "arglist": [mode, "--tolerance=%r" % tol, "--polyname", name, "--polyargs=" + fmt_list(t, bracket, 0), "poly"],
+                              "cmd": "poly", "mode": mode, "bracket": bracket, "so": "Wx", "tol": tol, "exp_args": t, "exp_classes": [cls],
+                              "npseed": rng.randrange(2 ** 31), "timeout": 600})
+        for name, (cls, tuples) in SEQNAMES.items():
+            for t in tuples:
+                mode = rng.choice(["--return-angles", "--output-json"])
+                bracket = rng.random() < 0.5
+                cases.append({"fn": "cli", "arglist": [mode, "--seqname", name, "--seqargs=" + fmt_list(t, bracket, 0), "angles"],
+                              "cmd": "angles", "mode": mode, "bracket": bracket, "so": "Wx", "tol": 0.1, "exp_args": t, "exp_classes": [cls],
+                              "npseed": rng.randrange(2 ** 31), "timeout": 600})
+        for t in FPS_ARGS:
+            mode = rng.choice(["--return-angles", "--output-json"])
+            bracket = rng.random() < 0.5
+            cases.append({"fn": "cli", "arglist": [mode, "--seqargs=" + fmt_list(t, bracket, 0), "fpsearch"],
+                          "cmd": "fpsearch", "mode": mode, "bracket": bracket, "so": "Wx", "tol": 0.1, "exp_args": t,
+                          "npseed": rng.randrange(2 ** 31), "timeout": 600})
         for cmd in UNKNOWN:
             cases.append({"fn": "cli", "arglist": ["--return-angles", "--poly=-1,0,2", cmd], "cmd": cmd, "mode": "--return-angles", "bracket": False,
                           "so": "Wx", "tol": 0.1, "exp_args": [], "npseed": 1, "timeout": 120})
@@ -138,7 +170,7 @@ def run(ctx):
             continue
         classes, _ = TABLE[c["cmd"]]
         if classes is None:
-            classes = ["PolySign"] if c["cmd"] == "poly" else ["FPSearch"]
+            classes = c.get("exp_classes") or (["PolySign"] if c["cmd"] == "poly" else ["FPSearch"])
         if [x["cls"] for x in g] != classes:
             ctx.fail("cli", c, "command %s used generators %s, expected %s" % (c["cmd"], [x["cls"] for x in g], classes))
             continue
